@@ -50,6 +50,13 @@ def gen(ctx, n):
         tail = [3.0, 0.001, r.randint(5, 20)]
         cases.append({'acc': 'prv', 'h1': [main, tail], 'h2': [tail, main], 'd1': 1e-5, 'd2': 1e-5, 'mm': 'perm', 'kind': 'pair'})
         cases.append({'acc': 'prv', 'h1': [main], 'h2': [main, tail], 'd1': 1e-5, 'd2': 1e-5, 'mm': 'steps', 'kind': 'pair'})
+    # a re-used accountant object: queried with one history, then given another of at least the same length
+    for _ in range(max(4, n // 20)):
+        acc = r.choice(['rdp', 'rdp', 'prv'])
+        k = r.randint(2, 4)
+        h1 = [[r.choice([0.7, 1.1, 1.5, 2.5]), r.choice([0.01, 0.02]), r.randint(5, 200)] for _ in range(k)]
+        h2 = [[r.choice([0.7, 1.1, 1.5, 2.5]), r.choice([0.01, 0.02]), r.randint(5, 200)] for _ in range(k + r.randint(0, 1))]
+        cases.append({'kind': 'reuse', 'acc': acc, 'h1': h1, 'h2': h2, 'd1': 1e-5, 'd2': 1e-5, 'mm': 'reuse', 'via': r.choice(['load', 'assign']), 'more': r.choice([0, 3])})
     for _ in range(max(3, n // 15)):
         q = r.choice([0.01, 0.04, 0.1])
         cases.append({'kind': 'cli', 'acc': 'rdp', 'q': q, 's': r.choice([0.8, 1.1, 2.0]), 'n': r.randint(10, 500), 'epochs': r.randint(1, 5), 'd1': 1e-5, 'mm': 'cli'})
@@ -75,6 +82,9 @@ def judge(ctx, c, rr):
             ctx.fail('acc-not-invariant-' + t, '%s accountant: %s changes epsilon from %r to %r' % (c['acc'], t, a, b), c)
         if t == 'cli' and abs(rr['cli_epochs'] - rr['acc_epochs']) > tol:
             ctx.fail('cli-disagrees', 'CLI script %r vs RDP accountant %r for %d steps' % (rr['cli_epochs'], rr['acc_epochs'], rr['cli_steps']), c)
+    elif t == 'reuse':
+        if abs(a - b) > tol or abs(rr['a2'] - rr['b2']) > tol:
+            ctx.fail('acc-depends-on-object-history', '%s accountant re-used after another history reports %r (then %r), a fresh accountant with the same history %r (then %r)' % (c['acc'], b, rr['b2'], a, rr['a2']), c)
     elif t in ('steps', 'rate'):
         if b < a - tol:
             ctx.fail('acc-not-monotone-' + t, '%s accountant: more %s lowered epsilon from %r to %r' % (c['acc'], t, a, b), c)
